@@ -10,6 +10,16 @@
 //        doc: JSON string (bytes 0..255 as \u00XX) or array of one-character strings;
 //        with "chars":true in the history line every string of the tree is written
 //        as an array of one-character strings (what the TLA+ modules work on)
+//        every node also reports what the accessors say: "get": per property [getProp(n), getProp(n, fallback), hasProp(n)],
+//        "absent": [hasProp, getProp, getProp with fallback "fb"] for the name "zz-absent"
+//   ReadSeq{docs}                     -> {steps: [{outcome, tree?}...]}   the files one after the other, same thread, same process
+//   ReadThreads{threads,rounds}       -> {threads: [[{first: observation, distinct: n}...]...]}  thread k reads its list of files
+//        `rounds` times, all threads released together by a spin barrier; per file the first observation and the number of
+//        distinct observations over the rounds (observed at the quiescent point after joining)
+//   ReadMissing{}                     -> {outcome}   a file name that does not exist
+//   Big{kind,n}                       -> {outcome, bytes, doc? (n <= 16), ctree?}   document built here by the formula of
+//        XmlDocGen!BigDoc; ctree = the returned tree with runs compressed: strings as [[char, count]...], consecutive equal
+//        children as [[ctree, count]...] (lossless)
 //   Nest{depth,form}                  -> {outcome, depth?, names_ok?}   document built here:
 //        form "closed": <a> x (depth-1), <a/>, </a> x (depth-1)   (= Render(NestTree(depth), Plain))
 //        form "open"  : <a> x depth, end of file
@@ -37,7 +47,9 @@
 #include <unistd.h>
 #include <cstdlib>
 #include <cstring>
+#include <atomic>
 #include <functional>
+#include <thread>
 #include <map>
 #include <set>
 #include <stdexcept>
@@ -128,6 +140,67 @@ static Json treeOf(const rx::Node &n)
   Json ch = Json::array();
   for (auto &c : n.child) ch.push(treeOf(c));
   o.set("child", ch);
+  if (g_chars) return o;  // (record mode: exactly the four fields XmlJudge compares)
+  // the same properties through the accessors of Node
+  Json gs = Json::array();
+  for (auto &kv : n.properties) {
+    Json g = Json::array();
+    g.push(S(n.getProp(kv.first)));
+    g.push(S(n.getProp(kv.first, "\x01fallback")));
+    g.push(Json(n.hasProp(kv.first)));
+    gs.push(g);
+  }
+  o.set("get", gs);
+  Json ab = Json::array();
+  ab.push(Json(n.hasProp("zz-absent")));
+  ab.push(S(n.getProp("zz-absent")));
+  ab.push(S(n.getProp("zz-absent", "fb")));
+  o.set("absent", ab);
+  return o;
+}
+
+// run-length compressed projection of a tree (lossless): strings as [[char, count]...], equal consecutive children merged
+static Json rle(const std::string &s)
+{
+  Json a = Json::array();
+  size_t i = 0;
+  while (i < s.size()) {
+    size_t j = i;
+    while (j < s.size() && s[j] == s[i]) ++j;
+    Json e = Json::array();
+    e.push(Json(std::string(1, s[i])));
+    e.push(Json((long long)(j - i)));
+    a.push(e);
+    i = j;
+  }
+  return a;
+}
+
+static Json ctreeOf(const rx::Node &n)
+{
+  Json o = Json::object();
+  o.set("name", rle(n.name));
+  Json ps = Json::array();
+  for (auto &kv : n.properties) {
+    Json p = Json::array();
+    p.push(rle(kv.first));
+    p.push(rle(kv.second));
+    ps.push(p);
+  }
+  o.set("props", ps);
+  o.set("content", rle(n.content));
+  Json ch = Json::array();
+  Json prev;
+  long long cnt = 0;
+  for (auto &c : n.child) {
+    Json cur = ctreeOf(c);
+    if (cnt > 0 && cur == prev) { ++cnt; continue; }
+    if (cnt > 0) { Json e = Json::array(); e.push(prev); e.push(Json(cnt)); ch.push(e); }
+    prev = cur;
+    cnt = 1;
+  }
+  if (cnt > 0) { Json e = Json::array(); e.push(prev); e.push(Json(cnt)); ch.push(e); }
+  o.set("child", ch);
   return o;
 }
 
@@ -148,6 +221,28 @@ static char readOne(const std::string &bytes, rx::XMLDoc *docOut, std::string *d
     if (detail) *detail = "unknown";
     return 'x';
   }
+}
+
+// the same through an explicitly named file (threads: one file per thread)
+static Json observeAt(const std::string &path, const std::string &bytes)
+{
+  FILE *f = fopen(path.c_str(), "w");
+  if (!f) { perror(("fopen " + path).c_str()); _exit(4); }
+  if (!bytes.empty() && fwrite(bytes.data(), 1, bytes.size(), f) != bytes.size()) { perror("fwrite"); _exit(4); }
+  fclose(f);
+  Json o = Json::object();
+  try {
+    rx::XMLDoc d = rx::readXML(path);
+    o.set("outcome", "ok");
+    o.set("tree", treeOf(d));
+  } catch (const std::runtime_error &) {
+    o.set("outcome", "runtime_error");
+  } catch (const std::exception &e) {
+    o.set("outcome", std::string("exception:") + typeid(e).name());
+  } catch (...) {
+    o.set("outcome", "exception:unknown");
+  }
+  return o;
 }
 
 static std::string outcomeName(char c, const std::string &detail)
@@ -299,6 +394,102 @@ struct World
       char c = readOne(str(arg["doc"]), &doc, &detail);
       o.set("outcome", outcomeName(c, detail));
       if (c == 'o') o.set("tree", treeOf(doc));
+    } else if (a == "ReadSeq") {
+      Json steps = Json::array();
+      for (size_t i = 0; i < arg["docs"].size(); ++i) {
+        rx::XMLDoc doc;
+        std::string detail;
+        char c = readOne(str(arg["docs"][i]), &doc, &detail);
+        Json st = Json::object();
+        st.set("outcome", outcomeName(c, detail));
+        if (c == 'o') st.set("tree", treeOf(doc));
+        steps.push(st);
+      }
+      o.set("steps", steps);
+    } else if (a == "ReadThreads") {
+      const Json &T = arg["threads"];
+      const long long rounds = arg["rounds"].num();
+      const size_t nt = T.size();
+      std::vector<std::vector<std::string>> docs(nt);
+      for (size_t t = 0; t < nt; ++t)
+        for (size_t i = 0; i < T[t].size(); ++i) docs[t].push_back(str(T[t][i]));
+      std::vector<std::vector<Json>> first(nt);
+      std::vector<std::vector<std::set<std::string>>> seen(nt);
+      for (size_t t = 0; t < nt; ++t) { first[t].resize(docs[t].size()); seen[t].resize(docs[t].size()); }
+      std::atomic<size_t> ready(0);
+      std::vector<std::thread> th;
+      for (size_t t = 0; t < nt; ++t) {
+        th.emplace_back([&, t]() {
+          const std::string path = g_tmpdir + "/xml-" + std::to_string((long)getpid()) + "-t" + std::to_string(t) + ".xml";
+          ready.fetch_add(1);
+          while (ready.load() < nt) { }  // spin barrier
+          for (long long r = 0; r < rounds; ++r)
+            for (size_t i = 0; i < docs[t].size(); ++i) {
+              Json ob = observeAt(path, docs[t][i]);
+              if (r == 0) first[t][i] = ob;
+              seen[t][i].insert(ob.dump());
+            }
+          unlink(path.c_str());
+        });
+      }
+      for (auto &x : th) x.join();
+      Json out = Json::array();
+      for (size_t t = 0; t < nt; ++t) {
+        Json per = Json::array();
+        for (size_t i = 0; i < docs[t].size(); ++i) {
+          Json e = Json::object();
+          e.set("first", first[t][i]);
+          e.set("distinct", (long long)seen[t][i].size());
+          per.push(e);
+        }
+        out.push(per);
+      }
+      o.set("threads", out);
+    } else if (a == "ReadMissing") {
+      const std::string path = g_tmpdir + "/no-such-file-" + std::to_string((long)getpid()) + ".xml";
+      unlink(path.c_str());
+      try {
+        rx::XMLDoc d = rx::readXML(path);
+        o.set("outcome", "ok");
+      } catch (const std::runtime_error &) {
+        o.set("outcome", "runtime_error");
+      } catch (const std::exception &e) {
+        o.set("outcome", std::string("exception:") + typeid(e).name());
+      } catch (...) {
+        o.set("outcome", "exception:unknown");
+      }
+    } else if (a == "Big") {
+      const std::string kind = arg["kind"].str();
+      const long long n = arg["n"].num();
+      auto rp = [](long long k, char c) { return std::string((size_t)(k < 0 ? 0 : k), c); };
+      std::string s;
+      if (kind == "name") s = "<" + rp(n, 'a') + "/>";
+      else if (kind == "value") s = "<a q=\"" + rp(n, 'v') + "\"/>";
+      else if (kind == "content") s = "<a>" + rp(n, 't') + "</a>";
+      else if (kind == "comment") s = "<a><!--" + rp(n, 'c') + "--><b/></a>";
+      else if (kind == "blank") s = "<a>" + rp(n, ' ') + "<b/></a>";
+      else if (kind == "attrs") {
+        s = "<a";
+        for (long long k = 1; k <= n; ++k) {
+          char buf[40];
+          snprintf(buf, sizeof buf, " p%05lld=\"%05lld\"", k, k);
+          s += buf;
+        }
+        s += "/>";
+      } else if (kind == "children") {
+        s = "<a>";
+        for (long long k = 0; k < n; ++k) s += "<b/>";
+        s += "</a>";
+      } else if (kind == "size") s = "<a>" + rp(n - 7, 't') + "</a>";
+      else if (kind == "sizepad") s = "<a/>" + rp(n - 4, '\n');
+      else { o.set("unknown_action", "Big/" + kind); return o; }
+      rx::XMLDoc doc;
+      std::string detail;
+      char c = readOne(s, &doc, &detail);
+      o.set("outcome", outcomeName(c, detail));
+      o.set("bytes", (long long)s.size());
+      if (n <= 16) o.set("doc", s);
+      if (c == 'o') o.set("ctree", ctreeOf(doc));
     } else if (a == "Nest") {
       long long d = arg["depth"].num();
       const std::string form = arg["form"].str();
